@@ -512,3 +512,62 @@ FAMILIES = {
     'linop': [('linear', lambda: LinearOp1D(lambda env, a, p: _abs_le(env, a, p['L'])))],
     'blocksmooth': [('sepquad', lambda: SepQuad2D())],
 }
+
+
+# ---------------------------------------------------------------------------------------------------------------------
+# membership form (C09): `member(fam, xv, gv, env, tag)` adds the hypotheses "gv is an admissible (sub)gradient / operator
+# value of the member at the real point xv" and returns f(xv).  Used when the model's own point algebra determines g
+# (implicit steps, remainders of composite stationary points), where g cannot simply be assigned.
+# ---------------------------------------------------------------------------------------------------------------------
+
+def member(fam, xv, gv, env, tag):
+    if isinstance(fam, MaxAffine1D):
+        r = fam._region(xv, env, tag)
+        if r == 0:
+            env.assume(env.eq(gv[0], fam.p1))
+            return fam.p1 * xv[0] + fam.q1
+        if r == 1:
+            env.assume(env.eq(gv[0], fam.p2))
+            return fam.p2 * xv[0] + fam.q2
+        env.assume(env.ge(gv[0], fam.p1))
+        env.assume(env.le(gv[0], fam.p2))
+        return fam.p1 * xv[0] + fam.q1
+    if isinstance(fam, IndicatorInterval):
+        r = env.choose(3, 'where-' + tag)
+        if r == 0:
+            env.assume(env.lt(fam.lo, xv[0]))
+            env.assume(env.lt(xv[0], fam.hi))
+            env.assume(env.eq(gv[0], 0))
+        elif r == 1:
+            env.assume(env.eq(xv[0], fam.lo))
+            env.assume(env.le(gv[0], 0))
+        else:
+            env.assume(env.eq(xv[0], fam.hi))
+            env.assume(env.ge(gv[0], 0))
+        return 0
+    if isinstance(fam, SupportInterval):
+        r = env.choose(3, 'sign-' + tag)
+        if r == 0:
+            env.assume(env.lt(0, xv[0]))
+            env.assume(env.eq(gv[0], fam.hi))
+            return fam.hi * xv[0]
+        if r == 1:
+            env.assume(env.lt(xv[0], 0))
+            env.assume(env.eq(gv[0], fam.lo))
+            return fam.lo * xv[0]
+        env.assume(env.eq(xv[0], 0))
+        env.assume(env.ge(gv[0], fam.lo))
+        env.assume(env.le(gv[0], fam.hi))
+        return 0
+    ref = fam.grad(xv, env, tag)
+    for a, b in zip(gv, ref):
+        env.assume(env.eq(a, b))
+    return fam.value(xv)
+
+
+def is_smooth_family(fam):
+    return not isinstance(fam, (MaxAffine1D, IndicatorInterval, SupportInterval))
+
+
+CLASS_KEY_BY_NAME = {v[1]: k for k, v in FCLASSES.items()}
+CLASS_KEY_BY_NAME['BlockSmoothConvexFunction'] = 'blocksmooth'
